@@ -140,6 +140,7 @@ class BleController(AbstractController):
         )
 
     async def async_find(self, device_id: str, timeout: float = 10) -> BleDiscovery:
+        device_id = device_id.lower()
         if discovery := self.discoveries.get(device_id):
             logger.debug("Discovery for %s already found", device_id)
             return discovery
@@ -150,6 +151,7 @@ class BleController(AbstractController):
             timeout,
         )
         future = asyncio.get_running_loop().create_future()
+        self._ble_futures.setdefault(device_id, []).append(future)
         try:
             async with asyncio_timeout(timeout):
                 return await future
